@@ -79,6 +79,7 @@ def checksum(s):
 
 class C20(Monitor):
     prop = "C20"
+    quick_cases = 2000
     rule = ("a live state reached by a random program prefix (possibly mid-episode, retracted, disabled, inch/relative), then "
             "StreamProcessor fed the rest of the program as a file (comments, N-numbers with checksums, blank / whitespace-only / "
             "comment-only lines, @-commands, leading blanks, LF or CRLF, last line with or without terminator) while a twin "
@@ -88,8 +89,6 @@ class C20(Monitor):
             "file in which an episode was open and a line was rewritten; distinct by digest")
     assumptions = ["commands are compared after tokenisation (the processor passes a normalised command string to the handlers)"]
 
-    def budget(self, tier):
-        return dict(workers=4, cases=400) if tier == "quick" else dict(workers=16, cases=0, secs=180, timeout=1500)
 
     def gen_case(self, rnd, tier, k):
         feats = mk(rel=rnd.random() < 0.4, inch=rnd.random() < 0.3, arcs=True, at=True, fw=rnd.random() < 0.4, g92e_retracted=True)
